@@ -137,7 +137,7 @@ MUTANTS = [
     ("c15-auto-channel", "C15", "tdfEMG.py", "next_channel = max(self._emgMap) + 1", "next_channel = len(self._emgMap)"),
     ("c15-remove-map", "C15", "tdfForcePlatformsCalibration.py", "        del self._platforms[index]\n        del self._platformMap[index]",
      "        del self._platforms[index]\n        del self._platformMap[min(index + 1, len(self._platformMap) - 1)]"),
-    ("c15-decode-reversed", "C15", "tdfForcePlatformsData.py", "[int(channel) for channel in plat_map]", "[int(channel) for channel in plat_map][::-1]"),
+    ("c15-decode-reversed", "C15", "tdfForcePlatformsData.py", "for channel, platform in zip(plat_map, platforms):", "for channel, platform in zip(plat_map[::-1], platforms):"),
     ("c16-no-restore", "C16", "tdfData3D.py", "            self._tracks = oldTracks\n            raise e", "            raise e"),
     ("c16-len-check", "C16", "tdfForce3D.py", "if track.nFrames != self.nFrames:", "if track.nFrames > self.nFrames:"),
     ("c17-new-no-check", "C17", "basictdf.py", '        if filePath.exists():\n            raise FileExistsError("File already exists")\n', ""),
@@ -214,6 +214,7 @@ def mutants(argv):
             shutil.copytree("/repo/src", src, ignore=shutil.ignore_patterns("__pycache__", "*.egg-info"))
             if not _apply(src, mid, fname, old, new):
                 results.append((mid, prop, "NOT-APPLICABLE (source text not found)", 0))
+                print(f"{mid:28s} {prop} NOT-APPLICABLE: the source text this mutant replaces is not in the tree", flush=True)
                 shutil.rmtree(os.path.join(tmp, mid))
                 continue
             tests_ok = None
